@@ -83,6 +83,11 @@ def run_ops(args):
                 txt = A.to_stored_json(f)
                 if list(json.loads(txt).keys()) != list(f.attributes.keys()):
                     fails.append((k, "json_key_order"))
+                # (decoded twice: the first result is edited in place before the second decode - the text alone decides what comes back)
+                first = A.from_stored_json(txt)
+                for _k, _v in A.stored_items(first):
+                    if isinstance(_v, list):
+                        _v.append("edited-after-decoding")
                 f.attributes = A.from_stored_json(txt)
             if constants.always_return_list != s["sw"]:
                 fails.append((k, "harness:switch"))
@@ -135,6 +140,25 @@ def merge_on_code(a1, a2, numeric, as_attrs, switch):
     return res, raised, unchanged
 
 
+def numeric_ties_only(res, exp, numeric):
+    """under numeric_sort, values that denote the SAME number ('1', '1.0', ' 1') tie: the statement asks for numeric order, not for an order among them"""
+    if not numeric:
+        return False
+    r, e = dict((json.dumps(k), vs) for k, vs in res), dict((json.dumps(k), vs) for k, vs in exp)
+    if set(r) != set(e):
+        return False
+    for k in e:
+        if r[k] == e[k]:
+            continue
+        try:
+            nums = [float(dec(v)) for v in r[k]]
+        except ValueError:
+            return False
+        if sorted(map(json.dumps, r[k])) != sorted(map(json.dumps, e[k])) or nums != sorted(nums):
+            return False
+    return True
+
+
 def check_merge(ctx, a1, a2, numeric, exp):
     for as_attrs in (False, True):
         for switch in (True, False):
@@ -145,7 +169,7 @@ def check_merge(ctx, a1, a2, numeric, exp):
                 ctx.violation(case, "merge_raised:" + raised, None)
             elif res == "bad_types":
                 ctx.violation(case, "merge_types", None)
-            elif sorted(res) != sorted(exp):
+            elif sorted(res) != sorted(exp) and not numeric_ties_only(res, exp, numeric):
                 ctx.violation(case, "merge_values", {"observed": A.real_attrs(res), "expected": A.real_attrs(exp)})
             elif not unchanged:
                 ctx.violation(case, "merge_mutated_arguments", None)
